@@ -5,6 +5,6 @@ package json
 
 //@ func (l *JSON) Unmarshal(b []byte) (err error)
 //@   requires l != nil
-//@   modifies l.ServerConfig, ghost.sends
+//@   modifies l.ServerConfig, ghost.sends, ghost.lastSent
 //@   ensures[C16] err != nil ==> ghost.sends == old(ghost.sends)
 //@   ensures[C16] err == nil ==> ghost.sends == old(ghost.sends) + 1
